@@ -324,17 +324,28 @@ func checkRecoveryCallback(c *Ctx, r *Report) {
 	// the site may be inside a goroutine closure: lift to the Go/MakeClosure instruction in the parent
 	at := site
 	fn := site.Parent()
-	for fn.Parent() != nil {
+	for hops := 0; hops < 4; hops++ {
 		var mk ssa.Instruction
-		eachInstr(fn.Parent(), func(in ssa.Instruction) {
-			if mc, ok := in.(*ssa.MakeClosure); ok && mc.Fn == fn {
-				mk = in
+		if fn.Parent() != nil {
+			eachInstr(fn.Parent(), func(in ssa.Instruction) {
+				if mc, ok := in.(*ssa.MakeClosure); ok && mc.Fn == fn {
+					mk = in
+				}
+			})
+		} else {
+			// a named function/method: lift to its only static call site (`go c.runRecoveryCallback(ep)`)
+			cs := c.staticCallSites(func(ci callInfo) bool { return ci.Static == fn })
+			if len(cs) == 1 && !hasGuardFacts(at) {
+				mk = cs[0]
 			}
-		})
+		}
 		if mk == nil {
 			break
 		}
-		at, fn = mk, fn.Parent()
+		at, fn = mk, mk.Parent()
+		if hasGuardFacts(at) {
+			break
+		}
 	}
 	changed, isHealthy, afterUpdate := false, false, false
 	for _, cf := range normFacts(condFacts(at.Block())) {
@@ -363,18 +374,29 @@ func checkRecoveryCallback(c *Ctx, r *Report) {
 }
 
 func checkBackoffCaps(c *Ctx, r *Report) {
-	caps := func(f *ssa.Function) map[string]bool {
-		out := map[string]bool{}
-		if f == nil {
-			return out
+	// the cap comparisons of f and of the package-local helpers it calls (the arithmetic may live in a helper)
+	var collect func(f *ssa.Function, out map[string]bool, depth int, seen map[*ssa.Function]bool)
+	collect = func(f *ssa.Function, out map[string]bool, depth int, seen map[*ssa.Function]bool) {
+		if f == nil || seen[f] || depth == 0 {
+			return
 		}
+		seen[f] = true
 		eachInstr(f, func(in ssa.Instruction) {
 			if bo, ok := in.(*ssa.BinOp); ok && bo.Op == token.GTR {
 				if k, ok := bo.Y.(*ssa.Const); ok && k.Value != nil {
 					out[k.Value.ExactString()] = true
 				}
 			}
+			if cc := getCall(in); cc != nil {
+				if sc := cc.StaticCallee(); sc != nil && sc.Pkg == f.Pkg && sc.Signature.Recv() == nil {
+					collect(sc, out, depth-1, seen)
+				}
+			}
 		})
+	}
+	caps := func(f *ssa.Function) map[string]bool {
+		out := map[string]bool{}
+		collect(f, out, 3, map[*ssa.Function]bool{})
 		return out
 	}
 	a := caps(c.Fn(pkgHealth, "calculateBackoff"))
@@ -775,6 +797,17 @@ func isRetryCancelledExit(ret *ssa.Return) bool {
 			if s, ok := constString(a); ok && s == "retry_cancelled" {
 				return true
 			}
+		}
+	}
+	return false
+}
+
+
+// hasGuardFacts: some dominating condition compares endpoint statuses (the recovery guard lives here).
+func hasGuardFacts(at ssa.Instruction) bool {
+	for _, cf := range condFacts(at.Block()) {
+		if bo, ok := cf.Cond.(*ssa.BinOp); ok && (mentionsField(bo.X, pkgDomain, "HealthCheckResult", "Status", 2) || mentionsField(bo.Y, pkgDomain, "HealthCheckResult", "Status", 2)) {
+			return true
 		}
 	}
 	return false
